@@ -12,7 +12,7 @@ LEVEL_NOTE = ("the model fixes the atomic steps at the resolver's lock acquisiti
 DESIGN_REF = "DESIGN.md §9 C13, Appendix G, §12.C13"
 COQ_TARGETS = ["Properties/C13", "Pins/C13"]
 THEOREMS = [("PdfV.Properties.C13", n) for n in
-            ["C13_per_thread_chain", "C13_completion", "C13_terminates", "C13_sequential_answer", "C13_answers_alone", "C13_full_refuted",
+            ["C13_per_thread_chain", "C13_completion", "C13_terminates", "C13_sequential_answer", "C13_answers_alone", "C13_cell_once", "C13_full_refuted",
              "C13_refuted_shared_chain", "C13_refuted_pop_assert", "C13_refuted_abort", "C13_cyclic_deadlock", "C13_chain_table",
              "C13_serving_cached_errors_refuted"]]
 ANCHORS = ["file.rs:StorageResolver"]
@@ -21,12 +21,14 @@ TRUSTED_BASE = ["coqc 8.16.1 kernel (vm_compute for witnesses and the table lemm
                 "gen/extract_cache.py (reads whether StorageResolver.chain is keyed by ThreadId)",
                 "Extraction + ExtrOcamlBasic, ocamlfind ocamlopt 4.13.1, coq/driver/main.ml",
                 "pdf/src/verif_hooks.rs + the four cfg-guarded yield points in StorageResolver::get (hook: commit)",
+                "harness pdfh modes/cache.rs: blocked-in-the-kernel detection of the turnstile scheduler (/proc/self/task/<tid>/stat) for threads waiting inside once_cell, Holder test type (Lazy<Node<ty>> cells)",
                 "harness pdfh modes/cache.rs: turnstile scheduler, TurnCache (instrumented implementation of the public Cache trait mirroring globalcache-0.2.4 SyncCache::get), Node<0..2> test types",
                 "tools/vplib, tools/oracle/cachedocs.py + pdfwriter.py"]
 ASSUMPTIONS = ["atomicity: the code between two yield points of one thread is one step (holds under the turnstile scheduler; for free-running threads it is the claim that the two mutexes make these sections atomic)",
                "the instrumented cache follows SyncCache::get's protocol (read from globalcache-0.2.4/src/sync.rs); the real SyncCache is exercised only by the stress mode",
                "C13_per_thread_chain premise `acyclic1`: eager nested loads follow a rank; for cyclic documents the cache protocol deadlocks (C13-b)",
-               "the readers' object types are the harness types Node<0..2> (library types are exercised sequentially by C12)"]
+               "the readers' object types are the harness types Node<0..2> (library types are exercised sequentially by C12)",
+               "once-cell protocol of Lazy::load as read from once_cell 1.x sync::OnceCell::get_or_try_init (one initialiser at a time, waiters block, a failed initialiser leaves the cell empty); lazily loaded references are the cells of the harness type Holder, shared by all threads of a schedule"]
 RULE = ("documents: Node documents (nested eager loads, failing loads, free references; acyclic and cyclic); 2 threads x 1 call: every interleaving of the "
         "model's steps (exhaustive), 2 x 2 and 3 x k: sampled schedules; split documents (for every error kind - missing object, wrong type, parse error, "
         "recursion, ... - a reference that fails with it as one type and loads as another): the same reference loaded as a failing and as a succeeding type "
